@@ -45,10 +45,19 @@ theorem callExt_wf {fn : String} {vs : List Value} {v : Value} (hvs : Value.WFL 
   · repeat' split at h
     all_goals first | (cases h; exact bool_wf _) | cases h
   · -- [.datetime t]
-    repeat' split at h
-    · cases h; simp only [Value.WF]; exact wrap_inI64_r _
-    · cases h; simp only [Value.WF]; exact tmod_day_range _
-    · cases h
+    rename_i t
+    split at h
+    · have := checkedSub_fst_range t (millisSinceMidnight t)
+      cases hc : checkedSub t (millisSinceMidnight t) with
+      | mk x ok =>
+        rw [hc] at h this
+        simp only at h
+        split at h
+        · cases h; simp only [Value.WF]; exact this
+        · cases h
+    · split at h
+      · cases h; simp only [Value.WF]; exact millisSinceMidnight_range _
+      · cases h
   · -- [.duration d]
     rename_i d
     have hd : InI64 d := by simpa [Value.WFL, Value.WF] using hvs
